@@ -202,3 +202,14 @@ theorem C05_http_final_status_stable (s : St) (a : Act) (s' : St) (evs : List Ev
       (try (obtain ⟨rfl, rfl⟩ := hs)) <;> simp_all [finalOf]
 
 end HttpClientStream
+
+namespace HttpClientStream
+
+/-- the only writers of the recorded error and of `done` of an HTTP client stream are RecvMsg's
+    second-response verdict and the completion `defer` of the reader goroutine (regenerated from
+    httpgrpc/client.go on every run) — the shape `complete` / `cViolation` of the model assume. The
+    defect repaired by 3fa6be1 was a third writer, `doHttpCall` itself. -/
+theorem C05_http_client_completion_writers :
+    Gen.clientRErrWriters = ["RecvMsg", "doHttpCall/defer"] ∧ Gen.clientDoneWriters = ["RecvMsg", "doHttpCall/defer"] := by decide
+
+end HttpClientStream
